@@ -196,6 +196,14 @@ class Scales:
             return None
 
     def _nat(self, q, base):
+        if q.name == "nuclear_electron_attraction_integral":
+            # sum over the charges of the per-charge Cauchy-Schwarz scales (charges of opposite sign on one site cancel in the
+            # matrix itself, not in the rounding of its terms)
+            from vf.core import lib
+
+            pc = lib(point_charge_integral, self.basis, _a(self.env, "nuc_coords").reshape(-1, 3), _a(self.env, "nuc_charges"))
+            dg = np.sqrt(np.abs(np.einsum("aan->an", pc)))
+            return np.einsum("an,bn->ab", dg, dg)
         if q.name == "moment_integral":
             q.env_orders = np.array(self.env["orders"], dtype=int).reshape(-1, 3).sum(axis=1)
         if q.axes == (0,):
